@@ -2646,7 +2646,9 @@ func (l *channelLink) canSendHtlc(policy models.ForwardingPolicy,
 	// We want to avoid offering an HTLC which will expire in the near
 	// future, so we'll reject an HTLC if the outgoing expiration time is
 	// too close to the current height.
-	if timeout <= heightNow+l.cfg.OutgoingCltvRejectDelta {
+	if uint64(timeout) <= uint64(heightNow)+
+		uint64(l.cfg.OutgoingCltvRejectDelta) {
+
 		l.log.Warnf("htlc(%x) has an expiry that's too soon: "+
 			"outgoing_expiry=%v, best_height=%v", payHash[:],
 			timeout, heightNow)
@@ -2660,7 +2662,9 @@ func (l *channelLink) canSendHtlc(policy models.ForwardingPolicy,
 	}
 
 	// Check absolute max delta.
-	if timeout > l.cfg.MaxOutgoingCltvExpiry+heightNow {
+	if uint64(timeout) > uint64(l.cfg.MaxOutgoingCltvExpiry)+
+		uint64(heightNow) {
+
 		l.log.Warnf("outgoing htlc(%x) has a time lock too far in "+
 			"the future: got %v, but maximum is %v", payHash[:],
 			timeout-heightNow, l.cfg.MaxOutgoingCltvExpiry)
